@@ -25,6 +25,7 @@ CATALOGUE_DOC = [
     ('next(it) without default', 'StopIteration (RuntimeError when it leaves a generator)'),
     ('mapping[constant key] on a dict built from request data (Header.options)', 'KeyError'),
     ('dict.update(x) with x from json.loads', 'TypeError / ValueError'),
+    ('text[constant int] where text is a local bound only to stripped / joined / sliced / read data and no emptiness test dominates the load', 'IndexError'),
     ('raise <stored exception attribute>', 'whatever was stored'),
 ]
 
@@ -430,10 +431,55 @@ class Escapes:
                 for m in self.resolve_self_attr_getters(f, n.attr):
                     for (cname, origin) in self.escapes(m):
                         yield n, [cname], origin
+            elif isinstance(n, ast.Subscript) and isinstance(n.ctx, ast.Load) and isinstance(n.slice, ast.Constant) and isinstance(n.slice.value, int) \
+                    and not isinstance(n.slice.value, bool) and isinstance(n.value, ast.Name) and self._maybe_empty_text(f, n):
+                yield n, ['IndexError'], self.site(f, n, f'<possibly empty text>[{n.slice.value}]')
             elif isinstance(n, ast.Subscript) and isinstance(n.ctx, ast.Load) and isinstance(n.slice, ast.Constant) and isinstance(n.slice.value, str):
                 base = dotted(n.value) or ''
                 if base.endswith('.options'):
                     yield n, ['KeyError'], self.site(f, n, self.kind(n))
+
+    _TEXT_MAKERS = ('strip', 'lstrip', 'rstrip', 'join', 'read', 'decode', 'encode', 'lower', 'upper', 'replace', 'getvalue')
+
+    def _maybe_empty_text(self, f, sub):
+        """`name[k]`: every reaching definition of name is text of unknown (possibly zero) length and no emptiness test dominates the load"""
+        from . import rules as T
+        g, rd = f.cfg, f.rd
+        ns = g.node_of_stmt(sub)
+        if not ns:
+            return False
+        name = sub.value.id
+        defs = rd.at(ns[0], name)
+        if not defs:
+            return False
+        for d in defs:
+            v = d.value
+            if d.kind != 'assign' or v is None:
+                return False
+            if isinstance(v, ast.Call) and call_attr(v) in self._TEXT_MAKERS:
+                continue
+            if isinstance(v, ast.Subscript) and isinstance(v.slice, ast.Slice):
+                continue
+            return False
+        for (tn, lab) in T.falsy_tests(g, name):
+            nonempty = 'false' if lab == 'true' else 'true'
+            if g.edge_dominates(tn, nonempty, ns[0]):
+                return False
+        # a length comparison anywhere above also counts as a guard
+        for tn in g.nodes:
+            if tn.kind == 'test' and tn.ast is not None and any(isinstance(x, ast.Call) and dotted(x.func) == 'len' and x.args and
+                                                              isinstance(x.args[0], ast.Name) and x.args[0].id == name for x in ast.walk(tn.ast)) \
+                    and (g.edge_dominates(tn, 'true', ns[0]) or g.edge_dominates(tn, 'false', ns[0])):
+                return False
+        # a short-circuit guard in the same expression: `name and name[0] ...`
+        p = getattr(sub, '_p', None)
+        while p is not None and not isinstance(p, ast.stmt):
+            if isinstance(p, ast.BoolOp) and isinstance(p.op, ast.And) and any(isinstance(o, ast.Name) and o.id == name for o in p.values):
+                return False
+            if isinstance(p, ast.IfExp) and any(isinstance(o, ast.Name) and o.id == name for o in ast.walk(p.test)):
+                return False
+            p = getattr(p, '_p', None)
+        return True
 
     def _codec_arg_is_latin1(self, callee, call):
         """callee decodes with a codec taken from one of its parameters and this call passes the constant 'latin1' for it"""
